@@ -84,6 +84,20 @@ def tensor_contract(col, g, dim):
     col.check(f"tensor:{dim}d", chk, inputs=inp, sample={"sizes": ns})
 
 
+def shipped_fourier2(shape, axes):
+    """Reference of the *recorded* behaviour of the 'Fourier2' scheme in 3D (known finding: these weights do not sum to the volume)."""
+    vol = abs(np.linalg.det(axes * shape[:, None])) * np.prod((shape - 1) / shape)
+
+    def f2(m):
+        gd = np.arange(1, m + 1)
+        gp = np.arange(1, m)
+        g2 = np.outer((2.0 * gd - 1) / m, gp)
+        w = 4.0 * np.einsum("ij,j->i", np.sin(g2 * np.pi), np.sin(gp * np.pi / 2.0) ** 2.0 / gp) / (np.pi * m)
+        w += 2.0 * np.sin(np.pi * m / 2.0) ** 2.0 * np.sin((gd - 0.5) * np.pi) / (m**2.0 * np.pi)
+        return w
+    return np.ravel(np.einsum("ijk,i,j,k->ijk", np.ones(shape), f2(shape[0]), f2(shape[1]), f2(shape[2])) * vol)
+
+
 def uniform_contract(col, g, dim, scheme):
     shape = np.array([int(x) for x in g.integers(2, 7, dim)])
     origin = g.normal(size=dim)
@@ -114,8 +128,8 @@ def uniform_contract(col, g, dim, scheme):
         zero_sum = False
         if dim == 3:
             try:
-                wsum = UniformGrid(origin, axes, shape, weight=scheme).weights.sum()
-                zero_sum = abs(wsum) < 1e-9 * abs(np.linalg.det(axes * shape[:, None]))
+                w_now = UniformGrid(origin, axes, shape, weight=scheme).weights
+                zero_sum = np.allclose(w_now, shipped_fourier2(shape, axes), rtol=1e-12, atol=1e-15)
             except Exception:  # noqa: BLE001
                 zero_sum = False
         if (dim == 2 and d.startswith("IndexError: index 2 is out of bounds")) or zero_sum:
